@@ -369,7 +369,7 @@ func (c16) Run(sc *Scenario) *Verdict {
 	key := sc.OrderKeys[0]
 	SetGlobalLoader("L0") // every history starts from the state of a fresh process
 	defer SetGlobalLoader("L0")
-	loaded := map[string]bool{} // URLs some earlier call has requested
+	loaded := map[string]bool{}      // URLs some earlier call has requested
 	kept := map[string]interface{}{} // root objects the caller keeps between calls, by world and form
 	lastWorld := -1
 	mutated, switched, burst := false, false, false
